@@ -156,3 +156,35 @@ _rereg_c12(_c01.UpdateFromOther, 'C12.update_from_other_hands_over_copies',
            'ContainerBase._update_from_other (C01.update_from_other re-checked): every member that is not skipped is '
            'written to self as copy.copy of the value read from the other container - for EVERY value (a short cut for '
            'falsy values would hand an empty list over by reference), and nothing of the other container is written')
+
+
+@register
+class NoCustomCopyHooks(ScanCheck):
+    id = 'C12.no_custom_copy_hooks_in_data_types'
+    prop = 'C12'
+    doc = ('frame: no class of the data-type / container modules (xml_types/*, mdib/*containers*, mdib/containerbase) '
+           'defines __deepcopy__, __copy__, __reduce__, __reduce_ex__, __getstate__ or __setstate__: copy.deepcopy - on '
+           'which mk_copy, the entity getters and the default-value isolation rest - copies these objects member by member '
+           'at every depth; a hand-written copy hook could re-use nested objects (the only hooks in the package are those '
+           'of xml_utils.QName, an immutable value)')
+
+    HOOKS = {'__deepcopy__', '__copy__', '__reduce__', '__reduce_ex__', '__getstate__', '__setstate__'}
+
+    def scan(self, repo):
+        import os
+        found, n = [], 0
+        root = os.path.join(repo.roots[0], 'sdc11073')
+        for sub in ('xml_types', 'mdib'):
+            for fn in sorted(os.listdir(os.path.join(root, sub))):
+                if not fn.endswith('.py') or (sub == 'mdib' and 'container' not in fn):
+                    continue
+                n += 1
+                with open(os.path.join(root, sub, fn)) as f:
+                    tree = ast.parse(f.read())
+                for node in ast.walk(tree):
+                    if isinstance(node, (ast.FunctionDef, ast.AsyncFunctionDef)) and node.name in self.HOOKS:
+                        found.append((f'{sub}/{fn}', node.name, node.lineno))
+                    if isinstance(node, ast.Assign) and any(isinstance(t, ast.Name) and t.id in self.HOOKS for t in node.targets):
+                        found.append((f'{sub}/{fn}', ast.unparse(node.targets[0]), node.lineno))
+        return [('modules_scanned', n >= 10, {'n': n}),
+                ('no_copy_hook_defined', not found, {'found': str(found)[:300]})]
